@@ -4,7 +4,7 @@
 # SCRATCH copy of the Lean project (never /verif/lean) and prints which theorems no longer build.
 #   usage: tools/orderfacts/validate.sh [mutant ...]      (default: all)
 # Mutants: <commit>      whole pre-fix file(s)  (git show <commit>~1:<path>)
-#          <commit>-R    only that fix reversed on today's file (git show <commit> | patch -R)
+#          <commit>-R    only that fix reversed on today's file (git show <commit> | patch -R); <c1>+<c2>-R: both, in this order
 #          Cxx-mk        /verif/seeded/Cxx-mk/patch.diff
 set -u
 VERIF=/verif
@@ -37,11 +37,14 @@ run_one() {
       done
       (cd "$root" && timeout 30 patch -s -p1 < $VERIF/seeded/$m/patch.diff) || { echo "$m: patch does not apply"; return; } ;;
     *-R)
-      local c=${m%-R}
-      for f in $(git -C $REPO show --format= --name-only $c); do
-        mkdir -p "$root/$(dirname $f)"; cp "$REPO/$f" "$root/$f"
-      done
-      (git -C $REPO show --format= $c | (cd "$root" && timeout 30 patch -s -R -p1)) || { echo "$m: reverse patch does not apply"; return; } ;;
+      # <c1>+<c2>-R: reverse c1, then c2 (when a later fix touched the same lines)
+      local cs=${m%-R}
+      for c in ${cs//+/ }; do
+        for f in $(git -C $REPO show --format= --name-only $c); do
+          mkdir -p "$root/$(dirname $f)"; [ -f "$root/$f" ] || cp "$REPO/$f" "$root/$f"
+        done
+        (git -C $REPO show --format= $c | (cd "$root" && timeout 30 patch -s -R -p1)) || { echo "$m: reverse patch of $c does not apply"; return; }
+      done ;;
     *)
       for f in $(git -C $REPO show --format= --name-only $m); do
         mkdir -p "$root/$(dirname $f)"; git -C $REPO show $m~1:$f > "$root/$f"
@@ -62,5 +65,5 @@ run_one() {
   echo "   failing theorems: ${failed:-none}"
 }
 
-ALL="baseline 036cc7d 036cc7d-R c63f907 c63f907-R 86e2d95 86e2d95-R dd6bb0c dd6bb0c-R d2bdde6 d2bdde6-R 2cc0c75 2cc0c75-R C10-m1 C13-m1 C13-m2 C02-m2 C07-m2 C17-m1"
+ALL="baseline 036cc7d 036cc7d-R c63f907 c63f907-R 86e2d95 86e2d95-R dd6bb0c dd6bb0c-R d2bdde6 d2bdde6-R 2cc0c75 d2bdde6+2cc0c75-R C10-m1 C13-m1 C13-m2 C02-m2 C07-m2 C17-m1"
 for m in ${@:-$ALL}; do run_one $m; done
